@@ -81,6 +81,7 @@ GROUP = Group(
     contracts=XMLSAFE,
     lemmas=template_lemmas() + [Lemma('templates.every_interpolation_is_escaped_or_safe', ['C05'], lemma_no_unclassified),
                                  Lemma('templates.content_protection_uses_the_default_kid_factories', ['C11'], lemma_content_protection)],
+    bounded=[{'name': 'c05_templates', 'props': ['C05'], 'cmd': ['/venv/bin/python', 'bounded/c05_templates.py', '{tier}', '--repo', '{repo}']}],
     assumptions=[
         'C05: str.replace(p, r) with a one-character pattern p maps every character c of the text to r if c == p and to c '
         'otherwise, in order (Python semantics): escaping a text is escaping each of its characters',
